@@ -1240,8 +1240,10 @@ class Interp:
             if m is not None:
                 return ModV(self.modinfo(m.rel))
             return ExtV(idx)
+        if isinstance(v, ExtV) and v.name.endswith("typing.Literal"):
+            return Obj("typing.Literal", attrs={"__args__": tuple(idx) if isinstance(idx, tuple) else (idx,)}, term=T("literal", (_term(idx),)), open_attrs=False)
         if isinstance(v, (ExtV, ClassV)):
-            return v  # typing subscripts: Literal[...], Dict[...]
+            return v  # typing subscripts: Dict[...], Optional[...]
         raise Unsupported(f"subscript of {type(v).__name__}")
 
     def e_Starred(self, n: ast.Starred, env: Env, mi: ModInfo) -> Any:
